@@ -104,35 +104,50 @@ def mixed_graph(rng, with_custom=True, fixed_mode='first'):
 
 
 def gauss_newton_step(seed, n):
-    """C03: poses after optimize(max_iter=1) == pose [+] slices of the dense solution of H dx = -b"""
+    """C03: after EACH of 1..3 successive optimize(max_iter=1) calls the poses equal pose [+] slices of the dense solution of
+    H dx = -b computed independently from the state before that call (so stale caches / shared arrays show up from the 2nd step)"""
     rng = random.Random(seed)
     fails, evals = [], 0
     for i in range(n):
         g, kind, ffp = mixed_graph(rng, fixed_mode=rng.choice(['first', 'some']))
+        # R^n odometry edges between landmark / point vertices, listed FIRST (constant Jacobians: a natural target for caching)
+        pts = [v for v in g._vertices if isinstance(v.pose, (PoseR2, PoseR3))]
+        if len(pts) >= 2 and rng.random() < 0.7:
+            a, b = rng.sample(pts, 2)
+            d = a.pose.COMPACT_DIMENSIONALITY
+            e = EdgeOdometry([a.id, b.id], oe.rand_spd(rng, d, 10.0), type(a.pose)(np.asarray(b.pose) - np.asarray(a.pose) + np.array([rng.gauss(0, .05) for _ in range(d)])))
+            es = [e] + list(g._edges)
+            for x in es:
+                x.vertices = None
+            g = Graph(es, g._vertices)
         if ffp:
             g._vertices[0].fixed = True
-        H, b, off = dense_system(g)
-        try:
-            if np.linalg.cond(H) > 1e10:
-                continue
-            dx = np.linalg.solve(H, -b)
-        except np.linalg.LinAlgError:
-            continue
-        expected = []
-        for k, v in enumerate(g._vertices):
-            expected.append(np.array(v.pose) if v.fixed else np.array(v.pose + dx[off[k]:off[k + 1]]))
-        try:
-            g.optimize(tol=0.0, max_iter=1, fix_first_pose=ffp, verbose=False)
-        except Exception as ex:  # noqa
-            fails.append({'law': 'optimize raised %r' % (ex,), 'seed': seed, 'case': i, 'edge': 'graph'})
-            continue
-        evals += 1
-        sc = 1.0 + max(float(np.abs(e).max()) for e in expected)
-        for k, v in enumerate(g._vertices):
-            if not poses_close(expected[k], v.pose, 1e-7 * sc):
-                fails.append({'law': 'pose after one iteration differs from pose [+] (-H^-1 b) computed by independent dense normal equations',
-                              'seed': seed, 'case': i, 'kind': kind, 'vertex_position': k, 'expected': expected[k].tolist(),
-                              'got': np.array(v.pose).tolist(), 'edge': 'graph', 'n_vertices': len(g._vertices), 'n_edges': len(g._edges)})
+        bad = False
+        for step in range(rng.randint(1, 3)):
+            H, b, off = dense_system(g)
+            try:
+                if np.linalg.cond(H) > 1e10:
+                    break
+                dx = np.linalg.solve(H, -b)
+            except np.linalg.LinAlgError:
+                break
+            expected = [np.array(v.pose) if v.fixed else np.array(v.pose + dx[off[k]:off[k + 1]]) for k, v in enumerate(g._vertices)]
+            try:
+                g.optimize(tol=0.0, max_iter=1, fix_first_pose=ffp, verbose=False)
+            except Exception as ex:  # noqa
+                fails.append({'law': 'optimize raised %r' % (ex,), 'seed': seed, 'case': i, 'edge': 'graph'})
+                bad = True
+                break
+            evals += 1
+            sc = 1.0 + max(float(np.abs(e).max()) for e in expected)
+            for k, v in enumerate(g._vertices):
+                if not poses_close(expected[k], v.pose, 1e-7 * sc):
+                    fails.append({'law': 'pose after iteration %d differs from pose [+] (-H^-1 b) computed by independent dense normal equations' % (step + 1),
+                                  'seed': seed, 'case': i, 'kind': kind, 'vertex_position': k, 'expected': expected[k].tolist(),
+                                  'got': np.array(v.pose).tolist(), 'edge': 'graph', 'n_vertices': len(g._vertices), 'n_edges': len(g._edges)})
+                    bad = True
+                    break
+            if bad:
                 break
     return evals, fails
 
